@@ -7,8 +7,13 @@ mode:生成的加密算法
 void multiruncrypt_file(u8_t id, Aesmode &mode)
 {
   buffergroup *iobuffer = buffergroup::get_instance();
+  WENCRY_VERIF_POINT(WV_WORKER_START, id);
   for (u8_t *block = iobuffer->require_buffer_entry(id); block != NULL; block = iobuffer->require_buffer_entry(id))
+  {
     mode.runcry(block);
+    WENCRY_VERIF_POINT(WV_BLOCK_DONE, id);
+  }
+  WENCRY_VERIF_POINT(WV_WORKER_EXIT, id);
 };
 /*
 run_multicry:进行多线程并发
